@@ -238,14 +238,25 @@ congruence<Number>::operator&(const congruence<Number> &o) const {
     }
   } else {
     // pre: a and o.a != 0
-    Number x = gcd(m_a, o.m_a);
-    if (m_b % x == (o.m_b % x)) {
-      // the part max(b,o.b) needs to be verified. What we really
-      // want is to find b'' such that
-      // 1) b'' % lcm(a,a') == b  % lcm(a,a'), and
-      // 2) b'' % lcm(a,a') == b' % lcm(a,a').
-      // An algorithm for that is provided in Granger'89.
-      return congruence<Number>(lcm(m_a, o.m_a), max(m_b, o.m_b));
+    // x is in both iff x = b + a*t with a*t = b' - b (mod a'), which
+    // has a solution iff g = gcd(a,a') divides b' - b (Chinese
+    // remainder theorem, Granger'89). The extended Euclidean
+    // algorithm gives s with s*a = g (mod a'), hence
+    // t = s*((b'-b)/g) (mod a'/g).
+    Number g(m_a), r(o.m_a), s(1), s1(0);
+    while (r != 0) {
+      Number q = g / r;
+      Number r2 = g - q * r;
+      g = r;
+      r = r2;
+      Number s2 = s - q * s1;
+      s = s1;
+      s1 = s2;
+    }
+    Number d = o.m_b - m_b;
+    if (d % g == 0) {
+      Number t = (s * (d / g)) % (o.m_a / g);
+      return congruence<Number>(lcm(m_a, o.m_a), m_b + m_a * t);
     } else {
       return congruence<Number>::bottom();
     }
